@@ -169,7 +169,7 @@ def _wrap64(x):
 
 
 class SInt:
-    __slots__ = ('v',)
+    __slots__ = ('v', 'pow2_exp')
 
     def __init__(self, v):
         if isinstance(v, SInt):
@@ -186,6 +186,7 @@ class SInt:
         elif not isinstance(v, (z3.ArithRef, z3.BitVecRef)):
             raise TypeError(f"SInt from {type(v)}")
         self.v = v
+        self.pow2_exp = None
 
     @property
     def concrete(self):
@@ -287,6 +288,14 @@ class SInt:
             return SInt(self.z() << o.z())
         if o.concrete:
             return SInt(self.z() * (1 << o.v))
+        bound = _small_mod_bound(o.z())
+        if self.concrete and self.v == 1 and bound is not None:
+            # 1 << (e % c): an explicit case table, remembered as a power of two for bit tests (x & (1 << k))
+            r = SInt(1 << (bound - 1))
+            for j in range(bound - 2, -1, -1):
+                r = merge_values(o == j, SInt(1 << j), r)
+            r.pow2_exp = (o, bound)
+            return r
         return SInt(self.z() * pow2(o).z())
 
     def __rlshift__(self, o):
@@ -316,6 +325,13 @@ class SInt:
     def __and__(self, o):
         if isinstance(o, SBool):
             return to_bool(self) & o
+        if Mode.int_mode == 'math' and isinstance(o, SInt) and o.pow2_exp is not None and not self.concrete:
+            # x & 2^k for non-negative x = (bit k of x) * 2^k
+            k, bound = o.pow2_exp
+            r = SInt(0)
+            for j in range(bound - 1, -1, -1):
+                r = merge_values(k == j, ((self // (1 << j)) % 2) * (1 << j), r)
+            return r
         return self._bitop(o, lambda a, b: a & b, lambda a, b: a & b, '&')
 
     def __rand__(self, o):
@@ -396,6 +412,18 @@ class SInt:
 
     def __repr__(self):
         return f"SInt({self.v})"
+
+
+def _small_mod_bound(t):
+    """c if the term is (e mod c) with a small constant c, else None"""
+    try:
+        if z3.is_app(t) and t.decl().kind() == z3.Z3_OP_MOD and z3.is_int_value(t.arg(1)):
+            c = t.arg(1).as_long()
+            if 1 <= c <= 64:
+                return c
+    except Exception:
+        pass
+    return None
 
 
 _pow2_fn = None
